@@ -63,8 +63,9 @@ def run(ctx):
         if f[-1] == "nocopy":
             nocopy += 1
             continue
-        front = f[-1] == "FRONTGUARD"
-        if front:
+        front = False
+        while f and f[-1] in ("FRONTGUARD", "FARGUARD"):     # bytes outside the printed region changed
+            front = True
             f = f[:-1]
         if len(f) != 5:
             continue       # a line cut short by an abort of the harness (reported above as harness-abort)
@@ -99,7 +100,7 @@ def run(ctx):
         "evaluations": len(cases), "nocopy_cases": nocopy,
         "distinct_nontrivial": len({(c[0], c[1], c[2]) for c in cases if (0 if c[2] == "-" else len(c[2]) // 2) >= c[1] - 1}),
         "rule": "grid: every copy site x string lengths 0..%d x buffer sizes 1..%d (directory getters: 4 path lengths; "
-                "schema ids: 3 lengths), 8 guard bytes each side; non-trivial = the string does not fit with room to spare "
+                "schema ids: 3 lengths), values ending in LF / CR LF and UTF-8 values cut inside a character; each case with a patterned buffer and with a buffer that already holds the first n bytes of the value unterminated; 8 guard bytes each side (compared with the model) + 640 far bytes behind (must stay untouched); non-trivial = the string does not fit with room to spare "
                 "(len >= n-1), i.e. truncation or exact fit" % (maxlen, maxsize),
         "samples": [{"site": c[0], "n": c[1], "src_hex": c[2], "memory_after": c[4]} for c in cases[5:400:97]],
         "per_site": per_site, "exhaustive": False,
